@@ -94,6 +94,20 @@ def mg2(F, R):
     for e in calls:
         if strip_load(e.args[0]) != ("param", 1):
             R.bad("MG2", "MG2/%s/mutator-on-other-graph/%s" % (e.fn_key(), e.name), e.where(), "merge() calls %s on a graph other than the left one" % e.name)
+    # no other state-changing API call on either graph: `data()` is a consuming read (it marks the datum read, decrements the
+    # group's counter and may collect the group)
+    reach = G.merge_closure(c.g)
+    for e in c.raw:
+        if e.kind != "call" or not e.callee.get("local") or e.name in ("add", "bind", "put", "next_id") or in_exempt(c, e):
+            continue
+        cb = F.bodies.get(e.path)
+        if cb is None or cb.self_adt != "Sodg" or cb.arg_count < 1 or not str(cb.locals[1]["ty"]).startswith("&mut"):
+            continue
+        if cb.vis != "pub" and e.path in reach:
+            continue        # merge's own private helpers (the descent, the repair): analysed as part of merge
+        R.bad("MG2", "MG2/%s/other-mutator/%s" % (fn_key(owner_body(e.body)), e.name), e.where(),
+              "merge() calls %s(), which changes graph state (a consuming read / another mutation): the merge does more to the graph than "
+              "the add/bind/put calls it stands for" % e.name)
     R.ok("MG2", c.merge.where(), "the left graph is changed only through add/bind/put/next_id (%d calls); %d direct state events outside the scoped exemption" % (len(calls), n))
 
 
